@@ -89,7 +89,7 @@ ASSUMPTIONS = [
     "explicit dtype=/parse_dates= are passed to both readers (dtype inference from samples is documented to differ)",
     "dask.dataframe is imported through the pyarrow import stub; to_parquet/read_parquet need the real pyarrow and are NOT decided",
 ]
-BUDGET = {"quick": 30, "thorough": 420}
+BUDGET = {"quick": 40, "thorough": 540}
 CASE_TIMEOUT = 60
 EXHAUSTIVE_SPACE = ("rd facet: 5 fixed files (LF with/without trailing newline, CRLF, quoted commas/quotes, header only) x "
                     "every blocksize from 1 to filesize+2 plus None and the default")
@@ -104,14 +104,19 @@ CLAIM = ("Every observed to_csv -> read_csv round trip reproduced the rows, thei
          "fixed files completely, otherwise sampled), except for the labels listed as findings. Parquet is not covered.")
 
 FLOORS = {
-    "quick": {"evaluations": 600, "distinct_nontrivial": 400,
-              "counters": {"rd_reads": 350, "rd_multi_block_reads": 200, "rd_blocksize_le_header": 60, "rd_rows_compared": 2000,
-                           "rt_roundtrips": 150, "rt_files_written": 400, "rt_rows_compared": 1000, "exhaustive_sweep": 100},
+    # ~45 % of the counts measured on the unchanged tree (quick seed 0: 1144 evaluations, 719 distinct non-trivial)
+    "quick": {"evaluations": 500, "distinct_nontrivial": 320,
+              "counters": {"rd_reads": 340, "rd_multi_block_reads": 140, "rd_blocksize_le_header": 80, "rd_rows_compared": 7000,
+                           "rd_header_only_files": 50, "rd_no_trailing_newline": 110, "rd_files_with_quotes": 200,
+                           "rt_roundtrips": 130, "rt_files_written": 380, "rt_rows_compared": 1200, "rt_with_empty_partition": 30,
+                           "rt_single_file": 45, "rt_index_written": 50, "exhaustive_sweep": 114},
               "max_skipped_fraction": 0.15},
-    "thorough": {"evaluations": 8000, "distinct_nontrivial": 6000,
-                 "counters": {"rd_reads": 4000, "rd_multi_block_reads": 2500, "rd_blocksize_le_header": 700,
-                              "rd_rows_compared": 25000, "rt_roundtrips": 2000, "rt_files_written": 5000,
-                              "rt_rows_compared": 12000, "exhaustive_sweep": 100},
+    "thorough": {"evaluations": 20000, "distinct_nontrivial": 13000,
+                 "counters": {"rd_reads": 12000, "rd_multi_block_reads": 5500, "rd_blocksize_le_header": 2500,
+                              "rd_rows_compared": 280000, "rd_header_only_files": 2000, "rd_no_trailing_newline": 4500,
+                              "rd_files_with_quotes": 8000, "rt_roundtrips": 5800, "rt_files_written": 16000,
+                              "rt_rows_compared": 50000, "rt_with_empty_partition": 1300, "rt_single_file": 2000,
+                              "rt_index_written": 2200, "exhaustive_sweep": 114},
                  "max_skipped_fraction": 0.15},
 }
 
